@@ -7,7 +7,7 @@ import ast
 from ..core import RuleResult, need
 from ..cfg import cfg_of
 from ..flow import flow_of, path_base
-from ..astutil import src, call_name, returns_of, walk_no_nested, is_name, compare_parts
+from ..astutil import src, call_name, call_attr, returns_of, walk_no_nested, is_name, compare_parts
 from ..macros import macro_index
 from . import macro_rules as mr
 
@@ -384,7 +384,66 @@ def rule_r10(repo):
     return rule_m10(repo, 'C18.R10', mr.verit_macros)
 
 
+def rule_r13(repo):
+    """The stale-operand rule of C06.Z6 for this property's modules."""
+    from .. import persist
+    res = RuleResult('C18.R13', 'after two sides were swapped, the expressions they were first bound to are not used again', floor=150)
+    for rel in tuple(mr.VERIT_FILES):
+        m = repo.module(rel)
+        for f in m.all_funcs:
+            cfg = cfg_of(f.node)
+            bad = persist.stale_after_swap(f.node, cfg)
+            res.add('%s :: %s :: no-stale-operand' % (rel, f.qualname), not bad,
+                    'no use of a swapped operand through its old expression' if not bad else
+                    '`%s` (line %d) is used after `%s` (line %d), where it no longer is what `%s` stands for' % (
+                        bad[0][2], bad[0][1].lineno, src(bad[0][0].ast, 40), bad[0][0].lineno, bad[0][3]), f.loc, nontrivial=bool(bad))
+    return res
+
+
+def rule_r14(repo):
+    """Conjunction and disjunction are idempotent: comparing their operand lists as sets is right.  Products and
+    sums are not: x * x is not x.  An evaluator must not compare the factors (summands) of two sides as sets,
+    or a repeated factor counts once: 2 * x * x * 3 = 6 * x would be accepted."""
+    res = RuleResult('C18.R14', 'factors and summands are never compared as sets', floor=2)
+    ARITH = {'strip_times', 'strip_times_full', 'strip_plus', 'strip_plus_full', 'strip_mult', 'strip_add'}
+    for f in mr.verit_eval_side_functions(repo):
+        if f.parent is not None:
+            continue
+        flow = flow_of(f.node)
+        arith = set()
+        for nm, defs in flow.defs.items():
+            for kd, rh in defs:
+                if any(isinstance(c, ast.Call) and (call_attr(c) in ARITH or (call_name(c) or '').split('.')[-1] in ARITH) for c in ast.walk(rh)):
+                    arith.add(nm)
+        # names derived from those lists (filters, slices)
+        changed = True
+        while changed:
+            changed = False
+            for nm, defs in flow.defs.items():
+                if nm in arith:
+                    continue
+                for kd, rh in defs:
+                    if any(isinstance(x, ast.Name) and x.id in arith for x in ast.walk(rh)) and \
+                            isinstance(rh, (ast.ListComp, ast.Subscript, ast.Name, ast.Call)):
+                        arith.add(nm)
+                        changed = True
+        if not arith:
+            continue
+        bad = [c for c in ast.walk(f.node) if isinstance(c, ast.Call) and call_name(c) in ('set', 'frozenset') and c.args and
+               any(isinstance(x, ast.Name) and x.id in arith for x in ast.walk(c.args[0]))]
+        # only sets that are compared (==, <=, issubset): building a set for membership tests is fine
+        cmp_bad = []
+        for cmp_ in ast.walk(f.node):
+            if isinstance(cmp_, ast.Compare) and any(b is x for b in bad for x in ast.walk(cmp_)):
+                cmp_bad.append(cmp_)
+        res.add('%s :: %s :: multiplicity-kept' % (f.module.rel, f.qualname), not cmp_bad,
+                'lists of factors / summands are compared as lists' if not cmp_bad else
+                '`%s` compares factors (or summands) as sets: a factor that occurs twice counts once, so 2 * x * x * 3 = 6 * x is accepted' % src(cmp_bad[0], 60),
+                '%s:%d' % (f.module.rel, (cmp_bad[0].lineno if cmp_bad else f.node.lineno)))
+    return res
+
+
 def rules(repo):
     r1 = mr.zip_rule(repo, 'C18.R1', mr.verit_eval_side_functions(repo), floor=9)
     r2 = mr.hyps_rule(repo, 'C18.R2', mr.verit_macros, floor=80)
-    return [r1, r2, rule_r3(repo), rule_r4(repo), rule_r5(repo), rule_r6(repo), rule_r7(repo), rule_r8(repo), rule_r9(repo), rule_r10(repo), rule_r11(repo), mr.expansion_uses_rule(repo, 'C18.R12', mr.verit_macros, floor=15)]
+    return [r1, r2, rule_r3(repo), rule_r4(repo), rule_r5(repo), rule_r6(repo), rule_r7(repo), rule_r8(repo), rule_r9(repo), rule_r10(repo), rule_r11(repo), mr.expansion_uses_rule(repo, 'C18.R12', mr.verit_macros, floor=15), rule_r13(repo), rule_r14(repo)]
